@@ -5,6 +5,7 @@ import TeleportModel.Generated.AbiTuples
 import TeleportModel.Generated.HostKeys
 import TeleportModel.Generated.Validate
 import TeleportModel.Generated.PacketScans
+import TeleportModel.Generated.KeeperKeys
 import TeleportModel.Driver.Loop
 /- Line protocol of C19 (see harness/c19_test.go and docs/C19.md). The model runs on the GENERATED tables. -/
 namespace TM.Driver.C19
@@ -98,6 +99,22 @@ def showScan (o : Outcome (List (Bytes × Bytes × UInt64 × SV))) : String :=
   | .ok l => okList (l.map (fun e => hex e.1 ++ ":" ++ hex e.2.1 ++ ":" ++ toString e.2.2.1.toNat ++ ":" ++ showSV e.2.2.2))
   | .err _ => "err"
   | .panic _ => "panic"
+
+/-- key template of the point accessor `fn` of the regenerated accessor table (one level of forwarding) -/
+def accessorT? (fn : String) : Option Template :=
+  match KeeperKeys.accessors.find? (fun a => a.fn == fn) with
+  | some a => some a.keyT
+  | none =>
+    match KeeperKeys.delegates.find? (fun d => d.fn == fn) with
+    | some d => (KeeperKeys.accessors.find? (fun a => a.fn == d.target)).map (·.keyT)
+    | none => none
+
+def famName? : String → Option String
+  | "commit" => some "PacketCommitment"
+  | "ack" => some "PacketAcknowledgement"
+  | "receipt" => some "PacketReceipt"
+  | "relayer" => some "PacketRelayer"
+  | _ => none
 
 def set (st : St) (k : Bytes) (v : SV) : St := { st with store := storeSet k v st.store }
 
@@ -243,6 +260,35 @@ def step (st : St) (line : String) : St × String :=
       else match render s.prefixT [.s a, .s b] with
         | some pre => (st, showScan (scanByPath (scanParserOf s.parser pre) pre a b st.store))
         | none => (st, "bad-op")
+    | _, _, _ => (st, "bad-op")
+  | [op, fam, a, b, n] =>
+    if op = "pget" || op = "phas" then
+      match famName? fam, unhex a, unhex b, u64? n with
+      | some f, some a, some b, some n =>
+        match accessorT? ((if op = "pget" then "Get" else "Has") ++ f) with
+        | none => (st, "bad-op")
+        | some T =>
+          match render T [.s a, .s b, .n n] with
+          | none => (st, "bad-op")
+          | some k =>
+            match storeGet k st.store with
+            | none => (st, if op = "pget" then "none" else "0")
+            | some v => (st, if op = "pget" then "some " ++ showSV v else "1")
+      | _, _, _, _ => (st, "bad-op")
+    else (st, "bad-op")
+  | ["nget", a, b] =>
+    match accessorT? "GetNextSequenceSend", unhex a, unhex b with
+    | some T, some a, some b =>
+      match render T [.s a, .s b] with
+      | none => (st, "bad-op")
+      | some k =>
+        match storeGet k st.store with
+        | none => (st, "1")
+        | some (.raw v) =>
+          match bigEndianToUint64 v with
+          | .ok n => (st, toString n.toNat)
+          | _ => (st, "panic")
+        | some _ => (st, "?")
     | _, _, _ => (st, "bad-op")
   | ["iseq"] =>
     (st, visit (prefixIter C.nextSeqSendPrefix st.store) (fun kv =>
